@@ -193,13 +193,27 @@ fn confirm_crash(bin: &Path, prop: &str, tier: Tier, b: &Batch, seed: u64, crash
     // a hang is confirmed by a generous wall-clock limit enforced here
     let pid = child.id();
     let killer = std::thread::spawn(move || {
-        let lim = std::time::Duration::from_secs(60);
+        // a hang is a run that burns CPU: 60 s of CPU time (not wall-clock time, which says
+        // nothing on a loaded machine); one hour of wall-clock as the last backstop
         let t = Instant::now();
-        while t.elapsed() < lim {
+        loop {
             std::thread::sleep(std::time::Duration::from_millis(200));
-            // stop early if the process is gone
             if unsafe { libc::kill(pid as i32, 0) } != 0 {
                 return false;
+            }
+            let cpu_s = std::fs::read_to_string(format!("/proc/{}/stat", pid))
+                .ok()
+                .and_then(|st| {
+                    let rest = st.rsplit_once(") ")?.1.to_string();
+                    let f: Vec<&str> = rest.split(' ').collect();
+                    let ut: u64 = f.get(11)?.parse().ok()?;
+                    let stt: u64 = f.get(12)?.parse().ok()?;
+                    let hz = unsafe { libc::sysconf(libc::_SC_CLK_TCK) }.max(1) as u64;
+                    Some((ut + stt) / hz)
+                })
+                .unwrap_or(0);
+            if cpu_s >= 60 || t.elapsed().as_secs() > 3600 {
+                break;
             }
         }
         unsafe { libc::kill(pid as i32, libc::SIGKILL) };
@@ -337,6 +351,12 @@ pub fn run_batch(
                                "profile": b.profile, "reproduced": true, "min_execs": 0, "events_tail": []}),
                         );
                     }
+                }
+                Solo::Clean if c["watchdog"].as_bool() == Some(true) => {
+                    // the CPU-time watchdog fired but the run alone finishes well inside the
+                    // limit: nothing was observed of gimli (the worker was restarted after
+                    // this index and the index itself has just been executed alone)
+                    eprintln!("NOTE: watchdog fired in run {} but the run alone completes; continuing", c["index"]);
                 }
                 Solo::Clean => harness_error(&format!(
                     "worker died in run {} but the run alone completes: nondeterministic crash ({})",
